@@ -1,3 +1,4 @@
+-- driver: ttl Um.Drv.Ttl
 import UmModel.Ttl
 import UmDriver.Common
 namespace Um.Drv.Ttl
